@@ -12,7 +12,8 @@
  *    optimal enabled transition set of the Recommendation.  Pre-emption is sp_conflict() (spec_rec.h); where the
  *    spec leaves the relation open (nested sources with a parallel state between) the emitted bit is used.
  *  - history: records are read through the spec regions (shallow: child states of the parent, deep: proper
- *    descendants of the parent); documents with nested histories are excluded (SKIP_HIST, see DESIGN.md C02).
+ *    descendants of the parent); in documents with nested histories (SKIP_HIST, see DESIGN.md C02) the clauses are
+ *    asserted only for steps whose entry set involves no history element (sps_hist_used == 0).
  *  - the entry set is computed as in the Recommendation: targets, their ancestors strictly below the transition
  *    domain, then default completion of every entered state that has no entered child; pseudo-states are
  *    resolved and dropped.
@@ -78,12 +79,15 @@ static int sps_in_region(int h, int j) {
   return sp_proper(j) && (d_kind[h] == K_HSHALLOW ? sp_child(j, p) : sp_desc(j, p));
 }
 
+static int sps_hist_used; /* set by sps_config when a history pseudo-state was part of the entry set */
+
 /* configuration after the microstep that takes the transitions sel[] from configuration C with history H;
  * pristine: the initial step (enter the root and its default completion).
  * exited / entered: the states whose onexit / onentry handlers run in this step */
 static void sps_config(const unsigned char *C, const unsigned char *H, const int *sel, int pristine, unsigned char *out, unsigned char *exited, unsigned char *entered) {
   unsigned char X[SPS_NB], E[SPS_NB], tmp[SPS_NB], Hn[SPS_NB];
   sp_zero(X, SPS_NB); sp_zero(E, SPS_NB);
+  sps_hist_used = 0;
   for (int k = 0; k < SPS_NB; k++) Hn[k] = H[k];
   if (pristine) {
     sp_set(E, 0);
@@ -125,6 +129,7 @@ static void sps_config(const unsigned char *C, const unsigned char *H, const int
       if (d_kind[i] == K_PARALLEL) {
         for (int j = i + 1; j < D_N; j++) if (sp_child(j, i) && sp_proper(j)) sp_set(E, j);
       } else if (sp_is_history(i)) {
+        sps_hist_used = 1;
         int rec = 0;
         for (int j = 1; j < D_N; j++) if (sps_in_region(i, j) && sp_bit(Hn, j)) rec = 1;
         if (rec) {
